@@ -546,8 +546,13 @@ def reachable_containers(roots):
             continue
         seen.add(id(v))
         if isinstance(v, Ptr):
+            # the container is marked (cells are identified by container and index), but only the pointed-to element is
+            # followed: a pointer to one field does not reach its sibling fields
             out.add(id(v.c))
-            stack.append(v.c)
+            try:
+                stack.append(v.c[v.i])
+            except Exception:
+                stack.append(v.c)
         elif isinstance(v, (list, tuple)):
             if isinstance(v, list):
                 out.add(id(v))
@@ -564,6 +569,7 @@ def reachable_containers(roots):
             for kv in v.items:
                 stack.extend(kv)
         elif isinstance(v, Native):
+            out.add(id(v))
             stack.extend(v.__dict__.values())
     return out
 
